@@ -249,7 +249,82 @@ fn errors<F: Scalar>(_p: &Params) {
     let _ = (BallTree, KdTree, LinearSearch);
 }
 
+/// exact comparison of an integer squared distance with the square of an f64 radius (r = m * 2^e, m < 2^53)
+fn cmp_d2_r2(d2: u64, r: f64) -> std::cmp::Ordering {
+    use std::cmp::Ordering::*;
+    if r <= 0.0 {
+        return if d2 == 0 && r == 0.0 { Equal } else { Greater };
+    }
+    let bits = r.to_bits();
+    let exp = ((bits >> 52) & 0x7ff) as i64;
+    let frac = bits & ((1u64 << 52) - 1);
+    let (m, e) = if exp == 0 { (frac, -1074i64) } else { (frac | (1u64 << 52), exp - 1075) };
+    // d2 ? m^2 * 2^(2e)   <=>   d2 * 2^(-2e) ? m^2      (here e < 0 and d2 < 2^20: both sides fit u128 for r >= 2^-2)
+    let m2 = (m as u128) * (m as u128);
+    let sh = (-2 * e) as u32;
+    if sh >= 127 || (d2 as u128).leading_zeros() < sh {
+        return Greater; // radius far below 1: only d2 = 0 could be inside, handled by the caller's tables (never used)
+    }
+    ((d2 as u128) << sh).cmp(&m2)
+}
+
+/// Range queries whose radius is a rounded square root (and its neighbouring doubles) over integer lattice points:
+/// points can then lie a fraction of an ulp inside or outside the radius.  The three index kinds are queried with
+/// the real f64 code (L2Dist: the ball tree's `distance` concretises symbolically, see c07.knn); membership is
+/// decided exactly in integer arithmetic.  The solver enumerates the configuration (point table, query, radius, leaf).
+fn boundary<F: Scalar>(_p: &Params) {
+    let tables: Vec<Vec<[i64; 2]>> = vec![
+        vec![[1, 1], [-1, 1], [1, -1], [-1, -1], [3, 0], [0, -2]],
+        vec![[2, 1], [1, 2], [-2, 1], [-1, -2], [2, -1], [0, 0], [1, 0], [3, 3]],
+        vec![[0, 1], [1, 0], [0, -1], [-1, 0], [2, 2], [-2, -2], [1, 1], [-3, 1], [3, -1]],
+        vec![[3, 1], [1, 3], [-3, -1], [-1, 3], [2, 3], [3, 2], [0, 3], [-2, -3], [1, -3], [4, 0]],
+    ];
+    let pts_i = &tables[choice("table", tables.len())];
+    let queries: [[i64; 2]; 3] = [[0, 0], [1, 0], [-1, 2]];
+    let qi = queries[choice("query", queries.len())];
+    let squares: [u64; 9] = [1, 2, 5, 8, 10, 13, 18, 20, 25];
+    let k2 = squares[choice("r2", squares.len())];
+    let base = (k2 as f64).sqrt();
+    let r = match choice("ulp", 3) {
+        0 => f64::from_bits(base.to_bits() - 1),
+        1 => base,
+        _ => f64::from_bits(base.to_bits() + 1),
+    };
+    let leaf = 1 + choice("leaf", 3);
+    let n = pts_i.len();
+    let pts = Array2::from_shape_fn((n, 2), |(i, j)| pts_i[i][j] as f64);
+    let q = Array1::from(vec![qi[0] as f64, qi[1] as f64]);
+    let mut sets: Vec<Vec<bool>> = vec![];
+    for kind in 0..3 {
+        let res = query_range::<f64>(kind, 2, leaf, &pts, &q, r);
+        let mut inset = vec![false; n];
+        for (_, i) in &res {
+            if *i < n {
+                inset[*i] = true;
+            }
+        }
+        for i in 0..n {
+            let d2 = ((pts_i[i][0] - qi[0]).pow(2) + (pts_i[i][1] - qi[1]).pow(2)) as u64;
+            match cmp_d2_r2(d2, r) {
+                std::cmp::Ordering::Less => check_bool("boundary.every point strictly inside the radius (exact arithmetic) is returned", inset[i]),
+                std::cmp::Ordering::Greater => check_bool("boundary.no point strictly outside the radius (exact arithmetic) is returned", !inset[i]),
+                _ => {}
+            }
+        }
+        sets.push(inset);
+    }
+    check_bool("boundary.index kinds agree", sets[1] == sets[0] && sets[2] == sets[0]);
+    symx::observe_usize(sets[0].iter().filter(|b| **b).count());
+}
+
 pub fn register(v: &mut Vec<HarnessDef>) {
+    v.push(HarnessDef {
+        name: "c07.boundary", property: "C07",
+        doc: "L2 range queries over integer lattice points with radii sqrt(k) and its two neighbouring doubles: every index kind returns exactly the points inside the radius in exact arithmetic; kinds agree",
+        sym: boundary::<SymF>, native: None,
+        functions: &["linfa_nn::{BallTreeIndex, KdTreeIndex, LinearSearchIndex}::within_range (f64, L2Dist)", "linfa_nn::balltree::BallTreeInner::rdistance (rounded lower bound)", "linfa_nn::distance::L2Dist::{distance, rdistance, dist_to_rdist}"],
+        assumptions: &["four tables of 6-10 lattice points, three queries, radii sqrt(k) (k in 1,2,5,8,10,13,18,20,25) and the doubles next to them, leaf sizes 1-3", "concrete f64 run per configuration (the solver only enumerates configurations); membership decided exactly in 128-bit integer arithmetic"],
+    });
     harness!(v, "c07.knn", "C07", knn,
         "k_nearest of one index kind vs brute force on symbolic integer coordinates",
         ["linfa_nn::NearestNeighbour::from_batch_with_leaf_size", "linfa_nn::NearestNeighbourIndex::k_nearest", "linfa_nn::balltree::{BallTreeInner::new, partition, calc_radius, BallTreeInner::rdistance, BallTreeIndex::nn_helper}", "linfa_nn::kdtree::KdTreeIndex::{new,k_nearest} (kdtree::KdTree::{add,nearest})", "linfa_nn::linear::LinearSearchIndex::k_nearest", "linfa_nn::distance::{L1Dist,L2Dist,LInfDist}::{distance,rdistance,rdist_to_dist,dist_to_rdist}"],
